@@ -134,6 +134,8 @@ class MiniEval:
                 return getattr(obj, n.attr)
         if obj is None:
             raise ModelRaise("AttributeError", f"'NoneType' object has no attribute '{n.attr}'")
+        if isinstance(obj, (dict, list, tuple, str)) and n.attr in ("__getitem__", "__contains__", "__len__"):
+            return getattr(obj, n.attr)
         if obj in (dict, set, frozenset, str, list, tuple, int) and n.attr in ("fromkeys", "union", "intersection", "join", "maketrans", "from_bytes", "difference") and hasattr(obj, n.attr):
             return getattr(obj, n.attr)
         raise Unsupported(f"attribute {n.attr} on {type(obj).__name__}")
